@@ -9,6 +9,7 @@ type HarnessSpec struct {
 	Property string
 	Quick    []Grid
 	Thorough []Grid
+	Deep     []Grid // grids that have not run to completion on the unchanged tree inside the budgets: not registered (tier "deep")
 	// engine configuration
 	ConcParams  map[string][]int
 	ConcResults map[string][]int
@@ -57,10 +58,34 @@ var defaultConcParams = map[string][]int{
 type Grid map[string][]int
 
 func (s *HarnessSpec) grids(tier string) []Grid {
-	if tier == "thorough" && s.Thorough != nil {
-		return s.Thorough
+	// the deeper tiers contain the quick grids (every strengthening made after a missed seeded
+	// change went into the quick grids) plus their own
+	if tier == "deep" && s.Deep != nil {
+		return append(append([]Grid{}, s.Quick...), s.Deep...)
+	}
+	if (tier == "thorough" || tier == "deep") && s.Thorough != nil {
+		return append(append([]Grid{}, s.Quick...), s.Thorough...)
 	}
 	return s.Quick
+}
+
+// thoroughValidated: properties whose thorough grids ran to completion, clean, on the unchanged
+// tree (25-minute cap, 8 workers, this machine).  For the others the thorough tier is the quick
+// grids (all of which run clean on every check) and the deeper grids are kept, unregistered,
+// as tier "deep": a bound is registered only after it has run clean.
+var thoroughValidated = map[string]bool{
+	"C07": true, "C08": true, "C13": true, "C15": true, "C16": true, "C17": true, "C19": true, "C20": true,
+	"*": true, "DBG": true, "DBG2": true,
+}
+
+func allSpecs() []*HarnessSpec {
+	ss := allSpecsRaw()
+	for _, s := range ss {
+		if !thoroughValidated[s.Property] && s.Thorough != nil {
+			s.Deep, s.Thorough = s.Thorough, nil
+		}
+	}
+	return ss
 }
 
 // items enumerates the parameter tuples of all grids of a tier.
@@ -88,7 +113,7 @@ func rng(lo, hi int) []int {
 	return r
 }
 
-func allSpecs() []*HarnessSpec {
+func allSpecsRaw() []*HarnessSpec {
 	return append(apiSpecs(), []*HarnessSpec{
 		// ---- C15 ----
 		{Name: "k_enc_int", Pkg: "encode", Property: "C15", Exhaustive: true, Witness: 1,
@@ -329,7 +354,9 @@ func apiSpecs() []*HarnessSpec {
 		swQ, swT := append(step(100, 150, 1), aligned...), append(step(100, 150, 1), aligned...)
 		lqS := []int{0}
 		if len(p.lqQ) > 1 {
-			swQ = append(step(100, 150, 5), aligned...)
+			// (with a symbolic first query byte the wide one-level fans 331-333 fork into hundreds of
+			// branches of minutes each: they are used with concrete queries only, see allkeys)
+			swQ = append(step(100, 150, 5), aligned[:len(aligned)-3]...)
 			lqS = []int{1}
 		}
 		q3 := []Grid{l3Grid(p.check, skQ, p.small[:2], enc3, []int{0, 2}, lq3Q), l3Grid(p.check, swQ, p.small[:2], enc3, []int{0, 3}, lqS)}
@@ -356,6 +383,8 @@ func apiSpecs() []*HarnessSpec {
 		// length-diverse skeletons (12, 13: key lengths on and around 32/64/128/256 bytes) and a key
 		// that is also an inner node with all 16 branches (14)
 		q3 = append(q3, l3Grid(p.check, []int{12, 13, 14}, p.small[:2], enc3, []int{0, 2}, lq3Q))
+		// 12 x 12 two-byte keys (nested 257-bit nodes); runs=112: the first twelve keys share one value
+		q3 = append(q3, l3Grid(p.check, []int{19}, p.small[:2], enc3, []int{0, 112, 12}, lqS))
 		// a root with all 256 byte branches (17), and the empty key as well (18)
 		if len(p.lqQ) > 1 {
 			// (a symbolic first query byte forks into all 256 branches: one option case, runs of 3)
@@ -419,6 +448,7 @@ func apiSpecs() []*HarnessSpec {
 			scanGrid(0, 2, optsComplFew, []int{1, 2, 0}, []int{0, 1, 2}, []int{0, 1}, []int{1}, []int{0}),
 			scanGrid(1, 2, optsComplFew, []int{1, 2, 0}, []int{0, 1, 2}, []int{0, 1, 2}, []int{1}, []int{0}),
 			alpha(scanGrid(2, 1, optsComplFew[:1], []int{1, 2, 8}, []int{0}, []int{1}, []int{1}, []int{0})),
+			alpha(scanGrid(2, 1, optsComplFew[:1], []int{1}, []int{0, 1, 2}, []int{0}, []int{0, 1}, []int{0})), // the empty start / end string
 			{"n": {1}, "L": {1}, "lens": {0, 1}, "opt": {9}, "enc": {1}, "check": {4}, "lq": {1}, "cv": {-1}, "api": {0}, "le": {1}, "stop": {0}, "again": {1}},
 			{"n": {2}, "L": {1}, "lens": {3}, "opt": {9}, "enc": {1}, "check": {4}, "lq": {1}, "cv": {-1}, "api": {0}, "le": {1}, "stop": {0}, "again": {1}, "alpha": {1}},
 		},
@@ -434,6 +464,7 @@ func apiSpecs() []*HarnessSpec {
 			{"skel": {0}, "opt": {9}, "enc": {2}, "runs": {0}, "check": {4}, "lq": {1}, "api": {0, 2}, "le": {2}, "stop": {0}},
 			{"skel": {12, 13, 14}, "opt": {9}, "enc": {1}, "runs": {0}, "check": {4}, "lq": {1}, "api": {0}, "le": {1}, "stop": {0}},
 			{"skel": {18}, "opt": {9}, "enc": {1}, "runs": {0}, "check": {4}, "lq": {0}, "api": {0}, "le": {1}, "stop": {0}},
+			{"skel": {0, 1, 2, 20, 21, 22, 101}, "opt": {9}, "enc": {1}, "runs": {0}, "check": {4}, "lq": {0}, "api": {0, 2}, "le": {0, 1}, "stop": {0}}, // the empty start / end string
 			// a second pair of scans after the first iterator was polled past its end
 			{"skel": {0, 1, 2, 3, 22}, "opt": {9}, "enc": {1}, "runs": {0}, "check": {4}, "lq": {1}, "api": {0}, "le": {1}, "stop": {0}, "again": {1}},
 			// empty-or-fixed-width application encoder: absent leaves inside a fixed-size leaf array
@@ -441,7 +472,7 @@ func apiSpecs() []*HarnessSpec {
 			{"skel": {20, 21, 22}, "opt": {9}, "enc": {8, 2}, "runs": {0}, "check": {4}, "lq": {1}, "api": {0, 2}, "le": {1}, "stop": {0}, "symv": {1}}},
 		Thorough: []Grid{{"skel": {0, 1, 2, 3, 4}, "opt": optsComplete, "enc": {1, 2, 0}, "runs": {0, 2}, "check": {4}, "lq": {0, 1, 2, 3}, "api": {0, 1, 2}, "le": {1, 2}, "stop": {0, 2}},
 			{"skel": append(step(100, 112, 2), 300, 303, 305, 310, 313), "opt": {9}, "enc": {1, 8}, "runs": {0, 3}, "check": {4}, "lq": {1}, "api": {0}, "le": {1}, "stop": {0}}},
-		Note:     "L3: scans over skeleton tries (257-bit root, deep caterpillar whose stack outgrows the initial scan stack, prefix keys)"})
+		Note: "L3: scans over skeleton tries (257-bit root, deep caterpillar whose stack outgrows the initial scan stack, prefix keys)"})
 	nonComplete := []int{0, 1, 2, 3, 4, 5, 16}
 	out = append(out, &HarnessSpec{Name: "l2_api", Pkg: "trie", Property: "C04", Witness: 1,
 		Quick: []Grid{{"n": {0}, "L": {2}, "lens": {0}, "opt": nonComplete, "enc": {1}, "check": {41}, "lq": {1}, "cv": {-1}},
@@ -492,6 +523,7 @@ func apiSpecs() []*HarnessSpec {
 	out = append(out, &HarnessSpec{Name: "l3_api", Pkg: "trie", Property: "C05", Witness: 1,
 		Quick: []Grid{{"skel": {0, 1, 2, 4, 5, 10}, "opt": {16, 9}, "enc": {1}, "runs": {0, 2}, "check": {5}, "lq": {1, 2}},
 			{"skel": {100, 102, 104}, "opt": {16, 9}, "enc": {1}, "runs": {0}, "check": {5}, "lq": {1}},
+			{"skel": {8, 9, 7}, "opt": {9, 4, 2}, "enc": {1}, "runs": {0}, "check": {5}, "lq": {1}}, // 64 / 128 leaves, 512-bit Inners: word-aligned counts with every prefix mode
 			{"skel": {12, 13, 14}, "opt": {16, 9}, "enc": {1}, "runs": {0}, "check": {5}, "lq": {1}},
 			{"skel": {17, 18}, "opt": {16}, "enc": {1}, "runs": {0}, "check": {5}, "lq": {0}},
 			{"skel": {0, 13}, "opt": {16, 9}, "enc": {1}, "runs": {0}, "check": {5}, "lq": {1}, "qkey": {-1}, "qtail": {40}},
@@ -522,7 +554,7 @@ func apiSpecs() []*HarnessSpec {
 		Quick: []Grid{{"skel": {0, 1, 8, 101, 110, 303}, "model": {0, 1}, "variant": {1}, "opt": {0}, "lq": {0}}},
 		Note:  "legacy-loaded skeletons: KeyCnt = n and Stat equal to the index built by the current code (0.5.10 layout)"})
 	out = append(out, &HarnessSpec{Name: "l3_size_rel", Pkg: "trie", Property: "C17", Witness: 1,
-		Quick:    []Grid{{"family": {0, 1, 2, 3}, "n": {64}, "plen": {1, 200, 5000}}, {"family": {5}, "n": {60}, "plen": {127, 200}}, {"family": {0, 2, 5}, "n": {3, 60}, "plen": {1}, "pre": {150, 355}},
+		Quick: []Grid{{"family": {0, 1, 2, 3}, "n": {64}, "plen": {1, 200, 5000}}, {"family": {5}, "n": {60}, "plen": {127, 200}}, {"family": {0, 2, 5}, "n": {3, 60}, "plen": {1}, "pre": {150, 355}},
 			{"family": {0, 2}, "n": {3, 60}, "plen": {1}, "pre": {20}, "preopt": {18, 19, 20, 21, 22, 9, 6, 17}}},
 		Thorough: []Grid{{"family": {0, 1, 2, 3, 5}, "n": {16, 64, 256}, "plen": {1, 64, 127, 128, 200, 5000, 16000}}},
 		Note:     "relational clause on key sets with many inner steps: a concrete family K versus P+K (|P| up to 5000): the size measure differs by <= 24 (real sizes by <= 16 on the native replays)"})
@@ -558,13 +590,16 @@ func apiSpecs() []*HarnessSpec {
 	// ---- C20 ----
 	out = append(out, &HarnessSpec{Name: "l3_nowrite", Pkg: "trie", Property: "C11", Witness: 1,
 		Quick: []Grid{{"skel": {0, 1, 2, 4, 5, 12, 14, 105, 120}, "opt": {16}, "enc": {1, 4}, "runs": {0, 2}, "loaded": {0, 1}, "lq": {1}, "api": {0, 1, 2, 4, 5}},
-			{"skel": {0, 1, 2, 3, 13, 104}, "opt": {9}, "enc": {1}, "runs": {0}, "loaded": {0, 1}, "lq": {1}, "api": rng(0, 6)}},
+			{"skel": {0, 1, 2, 3, 13, 104}, "opt": {9}, "enc": {1}, "runs": {0}, "loaded": {0, 1}, "lq": {1}, "api": rng(0, 6)},
+			// queries that extend an indexed key by a symbolic byte and a 40-byte tail (long unconsumed tails at a leaf)
+			{"skel": {0, 1, 13}, "opt": {9, 4, 16}, "enc": {1}, "runs": {0}, "loaded": {0}, "lq": {1}, "api": {0, 1, 3}, "qkey": {-1}, "qtail": {40}}},
 		Thorough: []Grid{{"skel": append([]int{0, 1, 2, 3, 4, 5, 6, 7, 8, 10, 11, 12, 13, 14}, step(100, 150, 5)...), "opt": {16, 9, 2}, "enc": {1, 4, 2}, "runs": {0, 2}, "loaded": {0, 1}, "lq": {1, 2}, "api": rng(0, 6)}},
-		Note: "L3: the write-set monitor on skeleton tries (short-node tables, 257-bit nodes, keys of 0..300 bytes, scan stacks deeper than the initial stack), fresh and loaded; interleaved iterators on Complete skeletons"})
+		Note:     "L3: the write-set monitor on skeleton tries (short-node tables, 257-bit nodes, keys of 0..300 bytes, scan stacks deeper than the initial stack), fresh and loaded; interleaved iterators on Complete skeletons"})
 	out = append(out, &HarnessSpec{Name: "l2_alias", Pkg: "trie", Property: "C20", Witness: 1,
 		Quick: []Grid{{"n": {0, 1, 2}, "L": {1}, "lens": rng(0, 3), "opt": optsAll, "part": {0}, "lq": {0}},
 			{"n": {1, 2}, "L": {1}, "lens": rng(0, 3), "opt": {16, 9, 2}, "part": {1, 2}, "lq": {1}},
-			{"n": {1, 2}, "L": {1}, "lens": rng(0, 3), "opt": {16, 9, 0}, "part": {3}, "lq": {1}}},
+			{"n": {1, 2}, "L": {1}, "lens": rng(0, 3), "opt": {16, 9, 0}, "part": {3}, "lq": {1}},
+			{"n": {1, 2, 3}, "L": {1}, "lens": {1, 3, 7}, "opt": {16, 0}, "part": {4}, "lq": {0}}},
 		Thorough: []Grid{{"n": {0, 1, 2}, "L": {2}, "lens": rng(0, 8), "opt": optsAll, "part": {0}, "lq": {0}},
 			{"n": {1, 2}, "L": {2}, "lens": rng(0, 8), "opt": optsDistinct, "part": {1, 2}, "lq": {1, 2}},
 			{"n": {3}, "L": {1}, "lens": rng(0, 7), "opt": {16, 9}, "part": {0, 1, 2}, "lq": {1}},
@@ -596,7 +631,9 @@ func apiSpecs() []*HarnessSpec {
 			{"type": {0, 1}, "n": {1}, "words": {0, 2, 5}, "pw": {0, 2, 5}, "loaded": {1}},
 			{"type": {0, 4}, "n": {2}, "words": {0, 6, 7, 12, 30, 35}, "pw": {0, 1, 5}, "loaded": {0}},
 			{"type": {1}, "n": {3}, "words": {0, 42, 43, 5*36 + 4*6 + 0}, "pw": {0, 1, 4}, "loaded": {0, 1}},
-			{"type": {6, 7}, "n": {1, 2}, "words": {0, 6, 7, 30}, "pw": {0, 1, 5}, "loaded": {0, 1}}},
+			{"type": {6, 7}, "n": {1, 2}, "words": {0, 6, 7, 30}, "pw": {0, 1, 5}, "loaded": {0, 1}},
+			// big-endian encoders for the element types were built earlier in the process
+			{"type": {1, 6, 7}, "n": {1, 2}, "words": {0, 7}, "pw": {0, 1}, "loaded": {0, 1}, "bepre": {1}}},
 		Thorough: []Grid{{"type": rng(0, 5), "n": {1, 2}, "words": rng(0, 35), "pw": rng(0, 5), "loaded": {0}},
 			{"type": {6, 7}, "n": {1, 2, 3}, "words": rng(0, 35), "pw": rng(0, 5), "loaded": {0, 1}},
 			{"type": {0, 1}, "n": {1, 2}, "words": rng(0, 35), "pw": rng(0, 5), "loaded": {1}},
@@ -630,6 +667,7 @@ func apiSpecs() []*HarnessSpec {
 	out = append(out, &HarnessSpec{Name: "l2_legacy0510", Pkg: "trie", Property: "C06", Witness: 1,
 		Quick: []Grid{{"n": {0, 1}, "L": {2}, "lens": {0, 1, 2}, "opt": {0, 2, 8, 1, 9}, "enc": {1, 0}, "hdr": {0, 1}, "lq": {1, 2}},
 			{"n": {2}, "L": {2}, "lens": rng(0, 8), "opt": {0, 2, 8}, "enc": {1}, "hdr": {0, 1}, "lq": {2}},
+			{"n": {2}, "L": {2}, "lens": rng(0, 8), "opt": {2, 8}, "enc": {0}, "hdr": {0, 1}, "lq": {2}}, // keys-only streams (no Leaves) that store prefixes
 			{"n": {2}, "L": {1}, "lens": rng(0, 3), "opt": {8}, "enc": {1}, "hdr": {0, 1}, "lq": {1}, "alpha": {1}},
 			{"n": {3}, "L": {1}, "lens": rng(0, 7), "opt": {2}, "enc": {1}, "hdr": {0}, "lq": {2}}},
 		Thorough: []Grid{{"n": {0, 1, 2}, "L": {2}, "lens": rng(0, 8), "opt": {0, 2, 8, 1, 3, 9}, "enc": {1, 0, 4}, "hdr": {0, 1}, "lq": {0, 1, 2, 3}},
